@@ -26,6 +26,24 @@ Theorem C02_quorum_delivered_implies_published :
     go_quorum (Z.of_nat (length (keys G))) <= nsigned G (esigs e) -> submitted e = true.
 Proof. exact quorum_implies_published. Qed.
 
+(* (iv) the same over whole histories — order independence: whatever the order, duplication and interleaving with other traffic,
+   if the history contains accepted observations of the digest by >= quorum pairwise distinct members of the set G under which
+   the node observed the message ([accepted_and_alive]: delivered by gossip or loopback, valid signature of a member of the set
+   applicable at that moment, and the entry has existed ever since), the node is a member of G and its own signature is no
+   longer on its way, then the VAA has been published. *)
+Theorem C02_order_independent_publication :
+  forall recover keccak sign own gov_chain gov_addr,
+    (forall b, length (keccak b) = 32%nat) -> length own = 20%nat ->
+    (forall d, length d = 32%nat -> rec recover d (sign d) = Some own) ->
+  forall ops h e G (signers : list addr), Forall op_wf ops ->
+    let st := fst (run recover keccak sign own gov_chain gov_addr init ops) in
+    In (h, e) (agg st) -> our_vaa e <> None -> gs_snap e = Some G -> In own (keys G) ->
+    (forall o, In o (loopq st) -> o_hash o <> h) ->
+    NoDup signers -> incl signers (keys G) -> go_quorum (Z.of_nat (length (keys G))) <= Z.of_nat (length signers) ->
+    (forall a, In a signers -> accepted_and_alive recover keccak sign own gov_chain gov_addr h a init ops) ->
+    submitted e = true.
+Proof. exact order_independent_publication. Qed.
+
 (* what "delivered" contributes: an observation that carries a valid signature of a member of the applicable set (and only such
    an observation, C03) is recorded in the entry of its digest ... *)
 Theorem C02_accepted_observation_is_recorded :
@@ -97,7 +115,18 @@ Example C02_premises_satisfiable :
   end.
 Proof. vm_compute. repeat split; try discriminate; try (left; reflexivity). Qed.
 
+(* ... and of (iv): in that history the node's own observation was accepted (by loopback) and the entry lived on *)
+Example C02_accepted_and_alive_satisfiable :
+  accepted_and_alive ex_recover ex_keccak ex_sign ex_own 1 (repeat x00 32) (repeat x00 32) ex_own init ex_ops.
+Proof.
+  unfold ex_ops. cbn [accepted_and_alive]. right. right. left. split.
+  - exists {| o_addr := ex_own; o_hash := repeat x00 32; o_sig := ex_sign (repeat x00 32); o_tx := [x07] |}, ex_G.
+    split; [vm_compute; reflexivity|]. split; [reflexivity|vm_compute; reflexivity].
+  - vm_compute. discriminate.
+Qed.
+
 Print Assumptions C02_quorum_delivered_implies_published.
+Print Assumptions C02_order_independent_publication.
 Print Assumptions C02_accepted_observation_is_recorded.
 Print Assumptions C02_recorded_signatures_and_submitted_persist.
 Print Assumptions C02_broadcast_only_from_observed_and_pending.
